@@ -52,6 +52,14 @@ func genPacket(g *genCtx) {
 		var ops []op
 		var mirror []op
 		for j := 0; j < nops; j++ {
+			if j != failAt && rr.Intn(40) == 0 {
+				// a fixed-width field far wider than any PDU slot
+				s := str(maxStr)
+				n := []int{255, 256, 257, 300, 1024, 4096}[rr.Intn(6)]
+				ops = append(ops, op{"op": "WFix", "v": B(s), "n": n})
+				mirror = append(mirror, op{"op": "RCStrN", "n": n})
+				continue
+			}
 			if j == failAt {
 				s := str(maxStr)
 				s = append(s, 1)
@@ -165,7 +173,18 @@ func runPacket(c Case, tr *Tracer) {
 		e["err"] = errStr(w.Error())
 		return e
 	}
+	// values handed out by earlier reads are kept and looked at again after every later read
+	var held [][]byte
+	var heldSnap []string
 	rst := func(e Ev, o op) Ev {
+		stale := false
+		for i := range held {
+			if string(held[i]) != heldSnap[i] {
+				stale = true
+				heldSnap[i] = string(held[i]) // reported once
+			}
+		}
+		e["stale"] = stale
 		e["rem"] = rd.Remaining()
 		e["err"] = errStr(rd.Error())
 		e["mi"] = caseInt(o, "mi")
@@ -225,6 +244,7 @@ func runPacket(c Case, tr *Tracer) {
 				in = caseBytes(o, "in")
 			}
 			logged := B(in) // logged before the reader can touch it
+			held, heldSnap = nil, nil
 			rd = packet.NewPacketReader(in)
 			tr.emit(Ev{"ev": name, "in": logged})
 		default:
@@ -251,7 +271,12 @@ func runPacket(c Case, tr *Tracer) {
 				rd.ReadBytes(recv)
 				tr.emit(rst(Ev{"ev": name, "out": B(recv)}, o))
 			case "RNBytes":
-				tr.emit(rst(Ev{"ev": name, "out": B(rd.ReadNBytes(n))}, o))
+				got := rd.ReadNBytes(n)
+				ev := rst(Ev{"ev": name, "out": B(got)}, o)
+				if len(got) > 0 {
+					held, heldSnap = append(held, got), append(heldSnap, string(got))
+				}
+				tr.emit(ev)
 			case "RCStrN":
 				tr.emit(rst(Ev{"ev": name, "out": S(rd.ReadCStringN(n))}, o))
 			case "RCStrNT":
